@@ -18,6 +18,7 @@ static size_t pick_max_size(Rng &rng, int tier, int level) {
 struct C01 : Driver {
   const char *prop() const override { return "C01"; }
   const char *level() const override { return "exploration"; }
+  const char *variants(int) const override { return "plain ndebug/4"; }   // assertion-free build = the shipped semantics
   uint64_t ncases(int tier) const override { return tier ? 300000 : 20000; }
   std::string rule() const override {
     return "case = (generated input, level 1-9, --sequential or not, -n 1..16, stdin file/pipe with fragmentation, seeded scheduling policy) compressed in one simulated process and "
@@ -64,6 +65,7 @@ static Registrar r01(new C01);
 struct C03 : Driver {
   const char *prop() const override { return "C03"; }
   const char *level() const override { return "exploration"; }
+  const char *variants(int) const override { return "plain ndebug/4"; }   // assertion-free build = the shipped semantics
   uint64_t ncases(int tier) const override { return tier ? 40000 : 6000; }
   std::string rule() const override {
     return "case = one (input, level, mode) compressed under K configurations (K=6 quick, 16-24 thorough) of everything that must not matter: -n 1..16, scheduling policy and seed incl. starved reader/writer/worker, "
@@ -119,10 +121,25 @@ static Registrar r03(new C03);
 // ===================================================================== compressed inputs for C09/C11
 static Bytes some_compressed(Rng &rng, int tier, Bytes *plain_out, std::string *desc, int *validity) {
   // mixes: libbz2 multi-stream, genstream valid, genstream with a defect, truncated, planted patterns
-  int k = (int)rng.below(10);
+  int k = (int)rng.below(11);
   Bytes z;
   *validity = bz::V_VALID;
-  if (k < 3) {
+  if (k == 10) {
+    // blocks in which every occurring symbol has a 20-bit code: each group of 50 symbols needs the full 1000 bits,
+    // which is what the decoder's fast path (32 whole words available) is dimensioned for
+    std::vector<bz::StreamSpec> ss(1);
+    ss[0].level = 1 + (int)rng.below(9);
+    int nb = 1 + (int)rng.below(3);
+    for (int b = 0; b < nb; b++) {
+      bz::BlockSpec bs;
+      unsigned alpha = 2 + (unsigned)rng.below(6);
+      bs.plain = gen::random_bytes(rng, 500 + rng.below(6000), alpha);
+      bs.long_codes = 1; bs.extra_inuse = 60 + (int)rng.below(100); bs.ntables = 2 + (int)rng.below(5);
+      ss[0].blocks.push_back(bs);
+    }
+    z = bz::genstream(ss, Bytes(), rng).bytes;
+    *desc = "long-codes";
+  } else if (k < 3) {
     std::string d;
     Bytes plain = gen::input(rng, 1, tier ? 600000 : 250000, &d);
     z = lib_multistream(rng, plain, 1 + (int)rng.below(4));
@@ -156,6 +173,7 @@ static Bytes some_compressed(Rng &rng, int tier, Bytes *plain_out, std::string *
 struct C09 : Driver {
   const char *prop() const override { return "C09"; }
   const char *level() const override { return "exploration"; }
+  const char *variants(int) const override { return "plain ndebug/4"; }   // assertion-free build = the shipped semantics
   uint64_t ncases(int tier) const override { return tier ? 80000 : 8000; }
   std::string rule() const override {
     return "case = one compressed input (valid, invalid or documented-exception; libbz2 output, generated streams, planted block-header patterns, truncations) decompressed under K configurations (K=6 quick, 12-16 thorough): "
@@ -227,6 +245,7 @@ static Registrar r09(new C09);
 struct C11 : Driver {
   const char *prop() const override { return "C11"; }
   const char *level() const override { return "exploration"; }
+  const char *variants(int) const override { return "plain ndebug/4"; }   // assertion-free build = the shipped semantics
   uint64_t ncases(int tier) const override { return tier ? 600000 : 50000; }
   std::string rule() const override {
     return "case = one simulated run of compression (default or --sequential; 0..40 chunks, chunks that split into several blocks, tiny last chunks), decompression (0..60 blocks, blocks that emit many output buffers, "
@@ -441,7 +460,7 @@ struct C13 : Driver {
   const char *level() const override { return "exploration"; }
   uint64_t ncases(int tier) const override { return tier ? 4000 : 480; }
   std::string rule() const override {
-    return "case = a group of runs with input sizes n, 2n, 4n, 8n (compression at level 1 or 9; decompression of highly expanding streams up to 48 MB of output, concatenated bombs) at one worker count from {1,2,4,8} "
+    return "case = a group of runs with input sizes n, 2n, 4n, 8n (compression at level 1 or 9; decompression of highly expanding streams up to 48 MB of output, concatenated bombs; 1, 2, 4, 8 FILE operands in one invocation whose ignored trailing data contains complete highly expanding blocks that are decoded speculatively and discarded) at one worker count from {1,2,4,8} "
            "under one adversarial scheduling policy (writer starved until every output slot is full, reader racing ahead, workers starved); measure = peak live heap bytes of the simulated process from the tracking allocator; "
            "oracle: peak <= frozen linear bound(W) for every run at every size, and the live heap left at exit does not grow with the input size (<= 64 KiB more at 8n than at n). distinct_nontrivial = distinct (mode, W, policy parameter, size class) tuples";
   }
@@ -451,7 +470,9 @@ struct C13 : Driver {
     Case c; c.prop = "C13";
     static const int ws[] = {1, 2, 4, 8};
     int W = ws[rng.below(4)];
-    int mode = (int)rng.below(2);   // 0 compress, 1 decompress
+    int mode = (int)rng.below(5);   // 0 compress, 1 decompress, 2 decompress several FILE operands whose trailing garbage holds decodable bomb blocks
+    mode = mode < 2 ? 0 : mode < 4 ? 1 : 2;
+    if (mode == 2 && W == 1) W = 2;
     int level = rng.below(2) ? 1 : 9;
     if (tier == 0 && level == 9 && W == 8) W = 4;
     c.p["W"] = W; c.p["mode"] = mode; c.p["level"] = level;
@@ -463,6 +484,7 @@ struct C13 : Driver {
       RunCfg r;
       if (mode == 0) r = compress_cfg(rng, level, rng.below(2), W, false);
       else r = decompress_cfg(rng, W, false, 1000, 1000);
+      if (mode == 2) { r.argv.push_back("-c"); for (int i = 0; i < (1 << k); i++) r.argv.push_back("op" + std::to_string(i) + ".bz2"); r.out_kind = sim::K_NULL; }
       r.sched = s; r.sched.seed = s.seed + k;
       c.runs.push_back(r);
     }
@@ -491,18 +513,32 @@ struct C13 : Driver {
     }
     return z;
   }
+  // an operand that decodes to a few bytes but whose ignored trailing data holds complete, highly expanding blocks:
+  // the scanners find them, helpers decode them speculatively (3.6 MB each) and the results must be thrown away
+  static Bytes bomb_operand(const Case &c) {
+    Rng rng((uint64_t)c.p.at("dataseed"));
+    Bytes z = bz::libbz2_encode(gen::random_bytes(rng, 200 + rng.below(2000), 256), 9);
+    z.push_back('\0');
+    Bytes bomb = bz::libbz2_encode(Bytes(900000 * 4, 'b'), 9);
+    int copies = 2 + (int)rng.below(5);
+    for (int i = 0; i < copies; i++) z += bomb.substr(4);     // start right at a block header
+    return z;
+  }
   Verdict eval(const Case &c, Ctx &ctx) const override {
     int W = (int)c.p.at("W"), mode = (int)c.p.at("mode"), level = (int)c.p.at("level");
     size_t bound = mode == 0 ? bound_compress(W, level) : bound_decompress(W);
     size_t first_peak = 0, first_final = 0;
+    Bytes operand; if (mode == 2) operand = bomb_operand(c);
     for (size_t k = 0; k < c.runs.size(); k++) {
-      Bytes in = make_input(c, (int)k);
+      Bytes in; if (mode != 2) in = make_input(c, (int)k);
       RunCfg r = c.runs[k];
       if (mode == 1) r.argv.push_back("-t");      // output bytes are not needed; -t keeps the writer path (slots are still cycled)
-      sim::Result a = exec(r, in, {}, ctx);
+      std::vector<FileSpec> files;
+      if (mode == 2) for (int i = 0; i < (1 << k); i++) { FileSpec f; f.name = "op" + std::to_string(i) + ".bz2"; f.data = operand; files.push_back(f); }
+      sim::Result a = exec(r, in, files, ctx);
       if (Verdict v = global_monitors(a, "run"); !v.ok()) return v;
       if (!a.exited(0)) return Verdict::fail("status", "run ended with " + a.describe());
-      if (ctx.st) { ctx.st->max(std::string("peak.") + (mode ? "decompress" : "compress" + std::to_string(level)) + ".W" + std::to_string(W), a.peak_heap); ctx.st->max(std::string("bound.") + (mode ? "decompress" : "compress" + std::to_string(level)) + ".W" + std::to_string(W), bound); }
+      if (ctx.st) { ctx.st->max(std::string("peak.") + (mode == 2 ? "decompress-operands" : mode ? "decompress" : "compress" + std::to_string(level)) + ".W" + std::to_string(W), a.peak_heap); ctx.st->max(std::string("bound.") + (mode == 2 ? "decompress-operands" : mode ? "decompress" : "compress" + std::to_string(level)) + ".W" + std::to_string(W), bound); }
       if (a.peak_heap > bound)
         return Verdict::fail("bound-exceeded", "peak live heap " + std::to_string(a.peak_heap) + " bytes exceeds the frozen bound " + std::to_string(bound) + " for W=" + std::to_string(W) + " (" + r.brief() + ", input " + std::to_string(in.size()) + " bytes)");
       // growth with size: what is still allocated when the process exits must not depend on the input size
